@@ -144,8 +144,16 @@ package service
 //@   modifies nothing
 //@ func parseOTLPPB
 //@   modifies nothing
-//@ func parseOTLP [C12]
+// The service name of a stored OTLP span is taken from the first of peer.service,
+// service.name, faas.name, k8s.deployment.name, process.executable.name that holds a
+// non-empty string: the search stops at a candidate only when it found a name - an
+// empty or non-string candidate never hides the candidates after it.
+//@ func parseOTLP [C06,C12]
 //@   flag checks=-assert
+//@   loop 2:
+//@     modifies nothing
+//@     invariant serviceName == ""
+//@     exit search-ends-early-only-with-a-name: rangeindex <= 4 ==> serviceName != ""
 
 // The 15-second table holds one value per series and bucket: it cannot serve the
 // range functions that need every raw sample (quantile, stddev, stdvar over time),
@@ -159,3 +167,19 @@ package service
 //@ func init [C17]
 //@   flag checks=-index,-assert
 //@   check table-of-functions: has(supportedFunctions, "quantile_over_time") && !supportedFunctions["quantile_over_time"] && has(supportedFunctions, "stddev_over_time") && !supportedFunctions["stddev_over_time"] && has(supportedFunctions, "stdvar_over_time") && !supportedFunctions["stdvar_over_time"]
+
+// A Prometheus match[] selector is rewritten as a LogQL selector that is parsed
+// again: every matcher is written the way the Prometheus library writes it (the
+// value as a quoted, escaped literal), never by hand.
+//@ func (*github.com/prometheus/prometheus/model/labels.Matcher).String
+//@   flag function
+//@   modifies nothing
+//@ func (*QueryLabelsService).Prom2LogqlMatch$1
+//@   flag modular
+//@   modifies nothing
+//@ func (*QueryLabelsService).Prom2LogqlMatch [C10]
+//@   flag checks=-index,-assert,-panic
+//@   check selector-text: result1 == nil ==> result0 == "{" + joinStr(arrayof(strMatchers), offsetof(strMatchers), len(strMatchers), ",") + "}"
+//@   loop 1:
+//@     modifies elems(strMatchers)
+//@     step every-matcher-is-rendered-by-the-library: strMatchers[rangeindex] == matchers[rangeindex].String()
